@@ -9,6 +9,7 @@ EXPLANATION = (
     "(same field on both sides, no inverted test); Hash feeds only fields that eq compares, unconditionally, each into the caller's hasher; Clone copies "
     "each of the four fields from the same field of self; compare_content is rlp_content(self) == rlp_content(other) and rlp_content is the framed "
     "[seq, pairs] stream without the signature (rule shared with C01). `Equal => identical pairs and encoding` is reduced to C05 (a valid signature binds the content)."
+    " Because == ignores the content, coherence with pairs/encoding rests on the always-signed invariant: re-uses C05 TS/WRAP/VALID/INV-RLP, C06 ATOMIC, C09 BUILD and C10 IDD."
 )
 TRUSTED = ["== on u64, [u8;32] and Vec<u8> is an equivalence relation; derived NodeId PartialEq/Hash compare/hash the raw bytes"]
 ASSUMPTIONS = ["C05: every record carries a valid signature over its content (so equal seq, node id and signature imply equal content up to a hash/signature collision)"]
@@ -153,3 +154,18 @@ def run(ctx, report):
         report.check("CONTENT", "compare_content", ok, "compare_content(a, b) = (a.rlp_content() == b.rlp_content())",
                      "compare_content is not equality of the two signed payloads: %s" % (short(rets[0][2], 200) if rets else "?"), fn=f.path, sp=f.span, config=cfg)
     payload_rule(ctx, report, rule="CONTENT")
+
+
+_own_run = run
+
+
+def run(ctx, report):
+    _own_run(ctx, report)
+    from common import Only
+    from rules import c05, c06, c09, c10
+    # equality ignores the content "on the strength of the always-signed invariant": the rules that invariant rests on
+    c05.run(ctx, Only(report, {"TS": "TS", "WRAP": "WRAP", "VALID": "VALID", "INV-RLP": "INV-RLP"}))
+    c06.run(ctx, Only(report, {"ATOMIC": "ATOMIC"}))
+    c09.run(ctx, Only(report, {"BUILD": "SIZE-BUILD"}))
+    c10.run(ctx, Only(report, {"IDD": "IDD"}))
+
